@@ -3,6 +3,7 @@ package props
 import (
 	"fmt"
 
+	"pipelined.dev/signal"
 	"verifharness/core"
 	"verifharness/dyn"
 	"verifharness/mon"
@@ -78,7 +79,136 @@ func runC14(c *core.Ctx) {
 			}
 		}
 	}
+	// views taken BEFORE the parent is mutated must keep addressing the
+	// parent's channel: after writes, sample appends, in-place and growing
+	// buffer appends
+	hn := 0
+	for _, t := range dyn.Types[:dyn.NBuiltin] {
+		for ch := 1; ch <= 4; ch++ {
+			for _, shape := range [][2]int{{0, 3}, {2, 4}, {3, 3}, {1, 6}} {
+				hn++
+				if !c.Mine(hn) {
+					continue
+				}
+				caseID := fmt.Sprintf("retained/%s/C%d/L%d/K%d", t.Name, ch, shape[0], shape[1])
+				if !c.Want(caseID) {
+					continue
+				}
+				c14Retained(c, t, ch, shape[0], shape[1], caseID)
+			}
+		}
+	}
 	c.Floor("views_with_samples", 1)
+	c.Floor("retained_view_checks_after_growth", 50)
+}
+
+func c14Retained(c *core.Ctx, t *dyn.TypeOps, ch, l, k int, caseID string) {
+	inst := "Channel[" + t.Name + "]"
+	d := map[string]any{"type": t.Name, "channels": ch, "length": l, "capacity": k, "scenario": "views taken first, parent mutated afterwards"}
+	parent := t.Alloc(signal.Allocator{Channels: ch, Length: l, Capacity: k})
+	stampN := int64(0)
+	stamp := func() dyn.Val {
+		stampN++
+		n := stampN
+		if t.Bits == 8 {
+			n = 1 + n%100
+		}
+		return t.FromInt(n)
+	}
+	for i := 0; i < parent.Len(); i++ {
+		parent.SetSample(i, stamp())
+	}
+	views := make([]dyn.Chan, ch)
+	for cc := range views {
+		views[cc] = parent.Channel(cc)
+	}
+	verify := func(step string) bool {
+		ok := true
+		p, msg := core.Guard(func() {
+			full := parent.Len() / ch // frames completely inside the length
+			for cc, v := range views {
+				if v.Length() != parent.Length() || v.Capacity() != parent.Capacity() || v.Channels() != 1 {
+					c.Violate(inst+"|retained-shape", caseID, fmt.Sprintf("after %s: view of channel %d reports length/capacity %d/%d, parent %d/%d", step, cc, v.Length(), v.Capacity(), parent.Length(), parent.Capacity()), d)
+					ok = false
+					return
+				}
+				for i := 0; i < full; i++ {
+					pos := ch*i + cc
+					c.Eval(1)
+					if got, want := v.Sample(i), parent.Sample(pos); !got.Same(want) {
+						c.Violate(inst+"|retained-read", caseID, fmt.Sprintf("after %s: view of channel %d taken earlier reads %v at index %d, the parent's sample at position %d is %v", step, cc, got, i, pos, want), d)
+						ok = false
+						return
+					}
+					x := stamp()
+					v.SetSample(i, x)
+					if got := parent.Sample(pos); !got.Same(x) {
+						c.Violate(inst+"|retained-write", caseID, fmt.Sprintf("after %s: wrote %v through the view of channel %d (taken earlier) at index %d, the parent's position %d holds %v", step, x, cc, i, pos, got), d)
+						ok = false
+						return
+					}
+					if bi := v.BufferIndex(cc, i); bi != pos {
+						c.Violate(inst+"|bufferindex", caseID, fmt.Sprintf("after %s: BufferIndex(%d,%d)=%d want %d", step, cc, i, bi, pos), d)
+						ok = false
+						return
+					}
+				}
+			}
+		})
+		if p {
+			c.Violate(inst+"|panic", caseID, fmt.Sprintf("after %s: use of a view taken earlier panicked: %s", step, msg), d)
+			return false
+		}
+		c.Distinct(core.NewHash().Str(caseID).Str(step).Sum())
+		return ok
+	}
+	if !verify("taking the views") {
+		return
+	}
+	for i := 0; i < parent.Len(); i += 2 {
+		parent.SetSample(i, stamp())
+	}
+	if !verify("SetSample on the parent") {
+		return
+	}
+	for i := 0; i < ch+1; i++ {
+		parent.AppendSample(stamp())
+	}
+	// complete the frame
+	for parent.Len()%ch != 0 && parent.Len() < parent.Cap() {
+		parent.AppendSample(stamp())
+	}
+	if !verify("AppendSample on the parent") {
+		return
+	}
+	mk := func(frames int) dyn.Buf {
+		s := t.Alloc(signal.Allocator{Channels: ch, Length: frames, Capacity: frames})
+		for i := 0; i < s.Len(); i++ {
+			s.SetSample(i, stamp())
+		}
+		return s
+	}
+	if room := (parent.Cap() - parent.Len()) / ch; room > 0 && parent.Len()%ch == 0 {
+		parent.Append(mk(1))
+		if !verify("in-place Append on the parent") {
+			return
+		}
+	}
+	if parent.Len()%ch == 0 {
+		before := parent.RawBase()
+		parent.Append(mk(parent.Capacity() + 2)) // must reallocate
+		if parent.RawBase() != before {
+			c.Obs("retained_view_checks_after_growth", 1)
+		}
+		if !verify("growing Append on the parent (storage moved)") {
+			return
+		}
+		parent.Append(parent) // self-append, grows again
+		if !verify("self-Append on the parent") {
+			return
+		}
+	}
+	c.Sample("retained-views", d)
 }
 
 func c14Case(c *core.Ctx, t *dyn.TypeOps, ch, k, s, e int, caseID string) {
